@@ -208,7 +208,7 @@ class C07(Check):
                 self.hr = None
 
             @initialize(prog=st.one_of(*([G.programs(feats=BASE_FEATS, min_nodes=2, max_nodes=hi, clean=True,
-                                                     p_feat=45)] * 7), scope_switching_programs()))
+                                                     p_feat=45)] * 7), scope_switching_programs(), scope_switching_programs()))
             def setup(self, prog):
                 self.directed = prog.pop('_directed', None)
                 self.hr = HistoryRunner(prog)
